@@ -9,6 +9,7 @@ from checks.common import medium_diagram
 from oracles import landscape as OL
 from oracles import plfun as P
 
+CALL_VARIANTS = True   # every whitelisted persim call is repeated with its arrays in another memory layout (mc/ctx.py)
 PROPERTY = "C08"
 RULE = (
     "every num_steps in 2..64 (thorough ..300) on a cover of 5 diagrams x 2 grids; medium diagrams of 6..12 (thorough ..35) bars on grids of 5..121 nodes; ALL multisets of <= n bars with endpoints on the quarter lattice of [0,3] (78 bars, mostly off "
